@@ -89,6 +89,7 @@ func (s *Store) Push(b bpv7.Bundle) error {
 		if err := bi.Parts[0].storeBundle(b); err != nil {
 			return err
 		}
+		verifPoint("push:new:file-written")
 
 		return s.bh.Insert(bi.Id, bi)
 	} else if bi.Fragmented {
@@ -131,6 +132,7 @@ func (s *Store) Push(b bpv7.Bundle) error {
 			if err := compPart.storeBundle(b); err != nil {
 				return err
 			}
+			verifPoint("push:frag:file-written")
 
 			biStore.Parts = append(biStore.Parts, compPart)
 			return s.bh.Update(biStore.Id, biStore)
@@ -190,6 +192,7 @@ func (s *Store) Delete(bid bpv7.BundleID) error {
 		}).Info("Store deletes BundleItem")
 
 		for _, bp := range bi.Parts {
+			verifPoint("delete:before-remove")
 			if err := bp.deleteBundle(); err != nil {
 				log.WithFields(log.Fields{
 					"bundle": bid,
@@ -197,8 +200,10 @@ func (s *Store) Delete(bid bpv7.BundleID) error {
 					"error":  err,
 				}).Warn("Failed to delete BundlePart")
 			}
+			verifPoint("delete:file-removed")
 		}
 
+		verifPoint("delete:before-index")
 		return s.bh.Delete(bi.Id, BundleItem{})
 	}
 
